@@ -38,6 +38,7 @@ pub struct Profile {
     pub p_math_exprs: f64,
     pub p_where_col_cmp: f64,
     pub p_where_fn: f64,
+    pub p_one_to_one: f64,
     pub p_many_aggs: f64,
     pub p_hidden_keys: f64,
     pub p_schema_path: f64,
@@ -83,6 +84,7 @@ impl Profile {
             p_math_exprs: 0.06,
             p_where_col_cmp: 0.05,
             p_where_fn: 0.05,
+            p_one_to_one: 0.12,
             p_many_aggs: 0.02,
             p_hidden_keys: 0.03,
             p_schema_path: 0.0,
@@ -101,7 +103,7 @@ impl Profile {
         match prop {
             "C03" => Profile { p_many_aggs: 0.1, p_on_or: 0.04, p_cross: 0.04, p_outer_kinds: 0.05, p_multi_dp: 0.06, p_shared_cte: 0.05, p_nested_group: 0.03, ..base },
             "C01" => Profile { p_nested_by_id: 0.04, p_on_or: 0.06, p_cross: 0.06, p_outer_kinds: 0.06, p_shared_cte: 0.03, p_nested_group: 0.05, ..base },
-            "C09" => Profile { p_hidden_keys: 0.0, p_schema_path: 0.1, p_cond_agg: 0.15, p_where_fn: 0.2, p_where_col_cmp: 0.2, p_math_exprs: 0.2, p_count_of_unique: 0.6, p_fn_exprs: 0.25, p_modulo: 0.12, p_alias_shadow: 0.4, public_keys_only: true, benign_data: true, p_distinct: 0.12, p_row_privacy: 0.15, p_grouped: 0.65, ..base },
+            "C09" => Profile { p_one_to_one: 0.3, p_hidden_keys: 0.0, p_schema_path: 0.1, p_cond_agg: 0.15, p_where_fn: 0.2, p_where_col_cmp: 0.2, p_math_exprs: 0.2, p_count_of_unique: 0.6, p_fn_exprs: 0.25, p_modulo: 0.12, p_alias_shadow: 0.4, public_keys_only: true, benign_data: true, p_distinct: 0.12, p_row_privacy: 0.15, p_grouped: 0.65, ..base },
             "C04" => Profile { p_hidden_keys: 0.1, p_where_fn: 0.2, p_unsupported_agg: 0.08, p_key_via_agg: 0.25, p_nested_group: 0.08, p_nested: 0.0, need_private_key: true, p_grouped: 1.0, p_outer: 0.0, p_distinct: 0.05, ..base },
             "C16" => Profile { benign_data: true, full_catalogue: true, p_public_table: 1.0, p_synthetic: 0.3, ..base },
             "C02" => Profile { p_hidden_keys: 0.08, p_where_fn: 0.1, p_pu_without_root: 0.08, p_extra_select: 0.05, p_join_of_subqueries: 0.05, p_on_or: 0.04, p_unsupported_agg: 0.08, p_cross: 0.04, p_outer_kinds: 0.05, p_multi_dp: 0.04, p_nested_group: 0.03, p_shared_cte: 0.08, p_plain: 0.25, p_synthetic: 0.4, p_public_table: 0.5, p_outer: 0.2, ..base },
@@ -468,7 +470,8 @@ pub fn generate(seed: u64, run: u64, prop: &str) -> Generated {
     // orders per user
     let base_orders = *rd.pick(&[0usize, 1, 2, 3]);
     // 1:1 optional extension table: at most one order per user, orders.user_id declared unique
-    let one_to_one = depth >= 2 && !direct_orders && rf.chance(0.12);
+    let one_to_one = depth >= 2 && !direct_orders && rf.chance(profile.p_one_to_one);
+    if one_to_one { tags.push("one_to_one".into()); }
     let heavy_user = if heavy && !one_to_one && n_users > 0 { Some(rd.usize(n_users)) } else { None };
     let spread_user = if spread && !one_to_one && n_users > 0 { Some(rd.usize(n_users)) } else { None };
     if one_to_one {
@@ -1609,7 +1612,9 @@ pub fn generate(seed: u64, run: u64, prop: &str) -> Generated {
             // (a denominator whose declared range excludes zero, on either side)
             let positive = numeric.iter().find(|(q2, c2)| *q2 != q && range_of(c2).map_or(false, |r| (r.0 > 0.0 || r.1 < 0.0) && r.0.abs().max(r.1.abs()) <= 1.0e6));
             let a_text = cols.iter().find(|(qt, ct)| !is_id(qt) && matches!(ct.ty, ColType::TextValues(_) | ColType::Text));
-            let (expr, scale, name) = match rme.below(22) {
+            let (expr, scale, name) = match rme.below(26) {
+                22 | 24 => (format!("sin({})", q), 1.0, "sin"),
+                23 | 25 => (format!("cos({})", q), 1.0, "cos"),
                 18 => (format!("round({} * 0.37, 1)", q), 0.37 * m + 0.05, "round1"),
                 19 => (format!("trunc({} * 0.37)", q), 0.37 * m + 1.0, "trunc"),
                 20 => (format!("round({} * 0.37)", q), 0.37 * m + 1.0, "round0"),
